@@ -28,6 +28,13 @@ fn main() {
     if !args.iter().any(|a| a == "--inner") && !args.iter().any(|a| a == "--replay") && std::env::var("VERIF_NO_SUPERVISOR").is_err() {
         std::process::exit(supervise(&args));
     }
+    if args.iter().any(|a| a == "--inner") {
+        // do not outlive the supervising parent (a caller that kills the parent on its own time limit must not
+        // leave a spinning child behind)
+        unsafe {
+            libc::prctl(libc::PR_SET_PDEATHSIG, libc::SIGKILL);
+        }
+    }
     let args: Vec<String> = args.into_iter().filter(|a| a != "--inner").collect();
     let id = args[0].as_str();
     let reg = props::registry();
